@@ -601,7 +601,7 @@ def orth_case(draw):
             "X": draw(kern.points(n, d, xb)), "q": draw(VM.q_params(M, vb)), "a": draw(kern.arr(ob + [Mb], kern.REAL)),
             "mode": draw(st.sampled_from(["eval", "eval", "train"])), "init": draw(st.sampled_from(["flag", "flag", "forward_first"])),
             "torch_seed": draw(st.integers(0, 2**31 - 1)), "xmode": "free"}
-    case["bad_mean_dist"] = draw(st.integers(0, 29)) == 0  # the mean distribution must be a Delta (documented refusal)
+    case["bad_mean_dist"] = draw(st.integers(0, 29)) == 13  # the mean distribution must be a Delta (documented refusal)
     if ob != b:
         case["init"] = "flag"  # the mean parameters can be initialised from the base q(f) only if they carry its batch shape
     return case
@@ -638,8 +638,13 @@ def run_orth(case, ctx: Ctx):
     obs = build_and_call(ctx, case, r, [(VM.base_strategy, VO.encode(dist, mw, Sw)),
                                         (lambda mdl: mdl.variational_strategy, {"variational_mean": a})], X)
     ctx.close("mean", obs["mean"], wm, rtol=tol, atol=tol, scale=sc)
-    ctx.close("variance", obs["variance"], VO.best_of(obs["variance"], var_candidates(wc, jb, (0, 1))), rtol=tol, atol=tol, scale=sc)
-    ctx.close("cov", obs["cov"], VO.best_of(obs["cov"], cov_candidates(wc, jb, (0, 1))), rtol=tol, atol=tol, scale=sc)
+    # the covariance does not depend on the mean parameters: when only they carry a batch dimension the library returns
+    # the covariance without it (broadcast-equivalent; how MultivariateNormal reports such a pair belongs to C10)
+    gv, gc = obs["variance"], obs["cov"]
+    if _bcastable(gc, wc):
+        gv, gc = gv.expand(wc.shape[:-1]), gc.expand(wc.shape)
+    ctx.close("variance", gv, VO.best_of(gv, var_candidates(wc, jb, (0, 1))), rtol=tol, atol=tol, scale=sc)
+    ctx.close("cov", gc, VO.best_of(gc, cov_candidates(wc, jb, (0, 1))), rtol=tol, atol=tol, scale=sc)
     # KL = base KL + 1/2 a^T (C_bb [+ base jitter] [+ own jitter]) a  - which jitters are present depends on the mode
     quad = lambda c: 0.5 * (a * VO.mv(Cbb + c * torch.eye(Mb), a)).sum(-1)  # noqa: E731
     cands = [bkl + quad(c) for c in (0.0, jb, jo, jb + jo)]
@@ -756,7 +761,7 @@ def multitask_case(draw, kind):
     d = draw(st.integers(1, 2))
     M = draw(st.integers(1, 4))
     n = draw(st.integers(1, 4))
-    L = draw(st.integers(1, 3))  # latent functions (LMC) / tasks (independent)
+    L = draw(st.sampled_from([1, 2, 2, 3, 3]))  # latent functions (LMC) / tasks (independent)
     layout = draw(st.sampled_from(["[L]", "[L]", "[L]", "[B,L]", "[L,B]"]))
     B = draw(st.sampled_from([2, 3]))
     vb, dim = {"[L]": ([L], -1), "[B,L]": ([B, L], -1), "[L,B]": ([L, B], -2)}[layout]
